@@ -1,4 +1,4 @@
-import Orca.Lemmas.SemSim
+import Orca.Lemmas.SemBranch
 /-!
 # C20 — semantic-after probes fire exactly once after the instruction
 
@@ -12,9 +12,13 @@ Lowering, as the code does it: block-level probes behind the construct's `end`; 
 `flag := 1` in front of the branch, `flag := 0` behind it (+ the probes, for a conditional branch), and behind the `end`
 of the target construct `local.get flag; if <probes> end` (chained with `else` for a second flag).
 
-Status: the block / if / else half is proved in full. The branch half is **partial**: the flag is never cleared after
-the chain has fired (F14) and a chain for the function label is never emitted (F15); both are decided below on concrete
-programs and are known findings of the crate (replayed by the `sem` family).
+Status: the block / if / else half is proved in full (`c20_construct_after`). The branch half is proved on the scope where
+the code's scheme is right (`c20_branch_partial`, `c20_function_partial`): annotations on `br` / `br_if`, no loop contains (or
+is) the target of an annotated branch, no annotated branch targets the function label, flag locals pairwise distinct,
+untouched by the program's own instructions and 0 on entry — for every program, nesting and execution in that scope. Outside
+it the property is **false** of the code: the flag is never cleared after the check has fired (F14: a `br_table` with two
+target blocks, or a target inside a loop) and a check for the function label is never emitted (F15); both are decided below on
+concrete programs and are known findings of the crate (replayed by the `sem` family).
 -/
 namespace Orca.Sem
 
@@ -65,6 +69,33 @@ def exBr : List Instr :=
 example : tr (run [] true [] 50 exBr (exSt [1])) = [1004, 8] ∧ tr (run [] false [] 50 (lowerL [] exBr) (exSt [1])) = [1004, 8]
     ∧ tr (run [] true [] 50 exBr (exSt [0])) = [1004, 7, 8] ∧ tr (run [] false [] 50 (lowerL [] exBr) (exSt [0])) = [1004, 7, 8] := by
   decide
+
+/-- **C20, branches (partial: the scope is `scopedL`).** Run the annotated program under the monitor from `s`; run its
+    lowering with the monitor off from any `s'` that differs from `s` in flag locals only and has the program's flags at 0.
+    Then the lowered run finishes with the same kind of outcome, the same stack, globals, memory and **trace** — every
+    semantic-after probe of a `br` / `br_if` reported exactly when the monitor reports it: when the branch arrives at its
+    target construct, or at once when a conditional branch falls through — and locals equal outside the flags.
+    (`SimOk` also carries the inductive invariant: flags outside the fragment untouched; on normal completion every flag of
+    a leaving branch is 0; on a branch outcome the pending branch's flag is 1 and the other leaving flags are 0.) -/
+theorem c20_branch_partial (fns : List Callee) (F fx : List Nat) (f : Nat) (p : List Instr) (s s' : St) (o : Out)
+    (hsc : scopedL F p = true) (hnd : (flagsL p).Nodup) (hF : ∀ x ∈ flagsL p, x ∈ F)
+    (h : run fns true fx f p s = o) (ok : o.ok = true) (hfe : FlagEq F s s') (hz : ∀ x ∈ flagsL p, flagIs s' x 0) :
+    ∃ o', RunsL fns false [] (lowerL fx p) s' o' ∧ OutRel F o o' :=
+  let ⟨o', h1, h2, _, _⟩ := branch_sim (fns := fns) hsc hnd hF h ok hfe hz
+  ⟨o', h1, h2⟩
+
+/-- **C20 at function level (partial, same scope).** The lowered function, monitor off, returns the same values (or traps
+    alike) with the same globals, memory and trace as the monitor semantics defines for the annotated function. -/
+theorem c20_function_partial (fns : List Callee) (F : List Nat) (Fn : Func) (hsc : scopedL F Fn.body = true)
+    (hnd : (flagsL Fn.body).Nodup) (hF : ∀ x ∈ flagsL Fn.body, x ∈ F) (hnoesc : ∀ d, pendingL d Fn.body = [])
+    (s s' : St) (hs : s.stack = []) (hfe : FlagEq F s s') (hz : ∀ x ∈ flagsL Fn.body, flagIs s' x 0) (f : Nat)
+    (ok : (runFunc fns true f Fn s).ok = true) :
+    ∃ g, FOutRel F (runFunc fns true f Fn s) (runFunc fns false g (lowerF Fn) s') :=
+  branch_lowerF_sim (fns := fns) F Fn hsc hnd hF hnoesc s s' hs hfe hz f ok
+
+/-- non-vacuity of the scope: the annotated `br_if` into a block of `exBr` (flag local 0) is in it -/
+example : scopedL [0] exBr = true ∧ (flagsL exBr).Nodup ∧ (∀ x ∈ flagsL exBr, x ∈ [0]) ∧ (∀ d, d < 3 → pendingL d exBr = [])
+    ∧ (exSt [1]).locals[0]? = some 0 := by decide
 
 /-- **F14 (known finding), decided.** A `br_table` with two different target blocks: the monitor reports the probe once;
     the lowered code reports it at the inner block's `end` and, the flag never being cleared, again at the outer one's. -/
